@@ -44,6 +44,10 @@ pub fn cfg_for(id: &str) -> Cfg {
         }
         "C16" => {
             c.reveal = true;
+            c.dirty = true;
+        }
+        "C12" => {
+            c.dirty = true;
         }
         "C09" => {
             c.model = true;
